@@ -118,6 +118,10 @@ type jconn struct {
 	cwTick      atomic.Int64
 	closed      chan struct{}
 	closeOnce   sync.Once
+	// closeGate, if set, makes Close return only once the harness opened the
+	// gate (a connection whose teardown takes a while); the call itself is
+	// journaled at once.
+	closeGate chan struct{}
 }
 
 func newJconn(inner *net.UnixConn, name string, clock *atomic.Int64) *jconn {
@@ -168,6 +172,12 @@ func (c *jconn) Close() error {
 	c.closes.Add(1)
 	c.closeTick.CompareAndSwap(0, c.clock.Add(1))
 	c.closeOnce.Do(func() { close(c.closed) })
+	if c.closeGate != nil {
+		select {
+		case <-c.closeGate:
+		case <-time.After(2*hangBound + 10*time.Second): // the harness never keeps the code under test stuck for good
+		}
+	}
 	return c.Conn.Close()
 }
 
@@ -200,6 +210,8 @@ type peer struct {
 	readerDone chan struct{}
 	writerDone chan struct{}
 	stuck      atomic.Value // set when the writer gave up waiting for EOF
+	other      *peer        // the peer at the far end (set by newLink)
+	otherAtEnd atomic.Int64 // bytes the far end had received when this reader ended
 }
 
 func newPeer(name string, conn *net.UnixConn, plan peerPlan, sendSalt, recvSalt uint64, clock *atomic.Int64, seed int64) *peer {
@@ -239,6 +251,9 @@ func (p *peer) reader() {
 				p.recvEnd.Store("error: " + err.Error())
 			}
 			p.endTick.Store(p.clock.Add(1))
+			if p.other != nil {
+				p.otherAtEnd.Store(p.other.recv.Load())
+			}
 			close(p.eofSeen)
 			return
 		}
@@ -439,6 +454,7 @@ func newLink(spec linkSpec, salt uint64, seed int64) (*link, error) {
 	}
 	l.A = newPeer("A", a, pa, saltAB, saltBA, l.clock, seed*2+1)
 	l.B = newPeer("B", b, pb, saltBA, saltAB, l.clock, seed*2+2)
+	l.A.other, l.B.other = l.B, l.A
 	return l, nil
 }
 
@@ -451,6 +467,17 @@ func (l *link) journal() map[string]any {
 		"first":  map[string]any{"read": l.first.readN.Load(), "written": l.first.writeN.Load(), "close_calls": l.first.closes.Load(), "close_tick": l.first.closeTick.Load(), "closewrite_calls": l.first.closeWrites.Load(), "closewrite_tick": l.first.cwTick.Load(), "fault_tick": l.first.faultHit.Load()},
 		"second": map[string]any{"read": l.second.readN.Load(), "written": l.second.writeN.Load(), "close_calls": l.second.closes.Load(), "close_tick": l.second.closeTick.Load(), "closewrite_calls": l.second.closeWrites.Load(), "closewrite_tick": l.second.cwTick.Load(), "fault_tick": l.second.faultHit.Load()},
 	}
+}
+
+// overlapBytes measures how much of the transfer was really simultaneous: the
+// smaller of the two directions' byte counts at the moment the faster
+// direction finished.
+func (l *link) overlapBytes() int64 {
+	a, b := l.A.otherAtEnd.Load(), l.B.otherAtEnd.Load()
+	if a < b {
+		return a
+	}
+	return b
 }
 
 // closeOuter releases the harness' ends (after the verdict).
@@ -543,6 +570,8 @@ type directCase struct {
 	Index    int      `json:"case"`
 	Link     linkSpec `json:"link"`
 	Auditors bool     `json:"auditors"`
+	// FullDuplex marks the cases in which both peers stream several MiB simultaneously.
+	FullDuplex bool `json:"full_duplex,omitempty"`
 }
 
 func runDirect(r *vk.Run, dc directCase) (sig string, hang bool) {
@@ -684,6 +713,9 @@ func runDirect(r *vk.Run, dc directCase) (sig string, hang bool) {
 		}
 	}
 	r.Count("direct_bytes_relayed", l.A.recv.Load()+l.B.recv.Load())
+	if dc.FullDuplex {
+		r.Count("full_duplex_overlap_bytes", l.overlapBytes())
+	}
 	if s.Fault != "none" && s.Fault != "cancel" && s.Fault != "A-abort" && s.Fault != "B-abort" {
 		if l.first.faultHit.Load() == 0 && l.second.faultHit.Load() == 0 {
 			r.Count("direct_faults_not_reached", 1)
@@ -708,6 +740,16 @@ func lenBucket(n int64) int {
 	return 4
 }
 
+// fullDuplexLink: both peers stream several MiB at the same time on the same
+// connection and half-close when done (true full duplex).
+func fullDuplexLink(rng *rand.Rand, quick bool) linkSpec {
+	lo, span := int64(2<<20), int64(2<<20)
+	if quick {
+		lo, span = 3<<19, 3<<19
+	}
+	return linkSpec{LA: lo + rng.Int63n(span+1), LB: lo + rng.Int63n(span+1), Mode: "concurrent", Fault: "none", FaultAt: -1, Chunk: []int{32 << 10, 64 << 10, 128 << 10, 5000}[rng.Intn(4)]}
+}
+
 var allModes = []string{"concurrent", "concurrent", "A-then-B", "B-then-A", "A-only", "B-only", "none"}
 var allFaults = []string{"none", "none", "none", "none", "first-read-error", "first-write-error", "second-read-error", "second-write-error", "A-abort", "B-abort", "cancel", "cancel"}
 
@@ -717,7 +759,7 @@ func c33() {
 
 	// Route (i): ForwardAndClose directly.
 	t0 := time.Now()
-	n := r.Pick(500, 12000)
+	n := r.Pick(400, 12000)
 	work := make(chan directCase, n)
 	rng := r.Rand("direct")
 	for i := 0; i < n; i++ {
@@ -726,6 +768,12 @@ func c33() {
 		work <- dc
 	}
 	close(work)
+	nfd := r.Pick(6, 80)
+	fdwork := make(chan directCase, nfd)
+	for i := 0; i < nfd; i++ {
+		fdwork <- directCase{Index: n + i, Link: fullDuplexLink(rng, r.Quick()), Auditors: i%2 == 0, FullDuplex: true}
+	}
+	close(fdwork)
 	var hangs, sampled atomic.Int64
 	var wg sync.WaitGroup
 	for w := 0; w < 8; w++ {
@@ -754,6 +802,31 @@ func c33() {
 		}()
 	}
 	wg.Wait()
+	// Full-duplex cases, a few at a time so that both directions of one
+	// connection really are busy simultaneously.
+	for w := 0; w < 3; w++ {
+		wg.Add(1)
+		go func() {
+			defer wg.Done()
+			for dc := range fdwork {
+				if hangs.Load() >= 2 {
+					return
+				}
+				fmt.Printf("direct %s\n", vk.JSON(dc))
+				sig, hang := runDirect(r, dc)
+				r.Eval(1)
+				r.Count("direct_full_duplex_cases", 1)
+				if hang {
+					hangs.Add(1)
+					continue
+				}
+				if sig != "" {
+					r.Distinct("fd|" + sig)
+				}
+			}
+		}()
+	}
+	wg.Wait()
 	r.Note("route_i_wall_s", time.Since(t0).Seconds())
 
 	// Route (ii): the real Manager and controller with scripted endpoints.
@@ -763,10 +836,14 @@ func c33() {
 	}
 	r.Note("route_ii_wall_s", time.Since(t1).Seconds())
 
+	// Bonus sensor for C34 (whose own check is built without the race
+	// detector): concurrent handshakes under -race. Results are judged by C34.
+	c34health = c33health
+	c34Concurrent(r, r.Pick(5, 50), false)
 	r.Note("heartbeat_max_gap_ms", c33health.maxGap.Load()/1e6)
 	r.Assume("connections are unix stream socket pairs; 'half-close' is CloseWrite on the peer's end; an abrupt failure is Close of the peer's socket or an error injected by the wrapper at a byte offset")
 	r.Assume("'is closed / returns' is bounded progress: a violation needs >= 12 s (plus 1 ms per 64 KiB of payload) with a healthy heartbeat")
-	r.Finish("(i) ForwardAndClose over journaling net.Conn+CloseWrite wrappers on unix socket pairs: payloads 0..4 MiB per direction, six half-close orders (both concurrently, A then B, B then A, only A, only B, none), wrapper read/write failures, abrupt peer closes and context cancellation at random byte offsets, with and without auditors; (ii) sessions created through forwarding.Manager with scripted endpoints (replacing the local protocol handler) handing out 1..64 such connections at once, totals read through Manager.List; distinct = route x mode x fault x payload-size buckets (route i), connection-count bucket x fault mix x stay-open (route ii)", 25)
+	r.Finish("(i) ForwardAndClose over journaling net.Conn+CloseWrite wrappers on unix socket pairs: payloads 0..4 MiB per direction, six half-close orders (both concurrently, A then B, B then A, only A, only B, none), dedicated full-duplex cases (both peers streaming 1.5..4 MiB at the same time), wrapper read/write failures, abrupt peer closes and context cancellation at random byte offsets, with and without auditors; (ii) sessions created through forwarding.Manager with scripted endpoints (replacing the local protocol handler) handing out 1..64 such connections at once, totals read through Manager.List, including full-duplex sessions and sessions whose forwarding loop is torn down (source/destination transport failure, pause+resume) and re-established while earlier connections are still being closed; distinct = route x mode x fault x payload-size buckets (route i), connection-count bucket x fault mix x stay-open (route ii)", 25)
 }
 
 func maxI64(a, b int64) int64 {
